@@ -90,7 +90,9 @@ func (c *Ctx) Import(newRule, doc, fromProp, fromRule string, keep func(key stri
 				c.add(newRule, o.Key, o.Pos, o.Verdict, o.Detail)
 				continue
 			}
-			if o.Rule != fromRule || strings.HasPrefix(o.Key, "pin:") || (keep != nil && !keep(o.Key)) {
+			// instance-count pins of the source rule are imported too (the filter sees the pin's name): a site that
+			// disappears is how a removed safeguard shows up
+			if o.Rule != fromRule || (keep != nil && !keep(strings.TrimPrefix(o.Key, "pin:"))) {
 				continue
 			}
 			n++
